@@ -39,6 +39,9 @@ type retryCfg struct {
 	// flows mode only: a SECOND Retry processor in the same flow, behind its own status filter (disjoint range)
 	Range2    *[2]int `json:"second_processor_range,omitempty"`
 	Attempts2 int     `json:"second_processor_attempts,omitempty"`
+	// flows mode only: a second user flow with the same filter and the same processor names; both flows run on
+	// every response and each Retry processor keeps its own count
+	TwoFlows bool `json:"two_flows_with_equal_processor_names,omitempty"`
 }
 
 // second returns the configuration as the second processor sees it.
@@ -58,6 +61,9 @@ func (c retryCfg) matches(status int) bool {
 }
 
 func (c retryCfg) key() string {
+	if c.TwoFlows {
+		return fmt.Sprintf("%s/a%d/c%d/m%v/%v+two-flows", c.Mode, c.Attempts, c.CooldownS, c.Mult, c.Ranges)
+	}
 	if c.Range2 != nil {
 		return fmt.Sprintf("%s/a%d/c%d/m%v/%v+second%v/a%d", c.Mode, c.Attempts, c.CooldownS, c.Mult, c.Ranges, *c.Range2, c.Attempts2)
 	}
@@ -268,6 +274,8 @@ type flowSUT struct {
 	waits int
 	// lastProc: the Retry processor ("Again" | "Again2") that reported a condition for the latest response
 	lastProc string
+	// lastConds: flow name -> condition its Retry processor reported for the latest response
+	lastConds map[string]string
 }
 
 func flowYAML(c retryCfg) string {
@@ -375,7 +383,11 @@ func flowYAML2(c retryCfg) string {
 const sentinel = 98765 * time.Hour
 
 func newFlowSUT(root string, c retryCfg, clk *sim.VClock, v *sim.Verdict) (*flowSUT, error) {
-	env, err := sim.NewStreamEnv(root, sim.Config{Flows: map[string]string{"flow.yaml": flowYAML(c)}, Quotas: map[string]string{}})
+	flows := map[string]string{"flow.yaml": flowYAML(c)}
+	if c.TwoFlows {
+		flows["flow2.yaml"] = strings.Replace(flowYAML(c), "name: retryflow", "name: retryflow2", 1)
+	}
+	env, err := sim.NewStreamEnv(root, sim.Config{Flows: flows, Quotas: map[string]string{}})
 	if err != nil {
 		return nil, err
 	}
@@ -435,10 +447,20 @@ func (f *flowSUT) respond(txnID, seqID string, status int) (bool, string, error)
 		}
 	}
 	cond := ""
+	f.lastConds = map[string]string{}
 	for _, e := range sim.GlobalSink.Drain() {
 		if e.Kind == "proc" && len(e.Args) >= 5 && (e.Args[1] == "Again" || e.Args[1] == "Again2") && e.Args[4] == txnID {
 			cond = e.Args[3]
 			f.lastProc = e.Args[1]
+			f.lastConds[e.Args[0]] = e.Args[3]
+		}
+	}
+	if len(f.lastConds) > 1 {
+		// two flows: the cross-check below wants "retry" iff some flow asked for one
+		for _, c := range f.lastConds {
+			if c == "retry" {
+				cond = "retry"
+			}
 		}
 	}
 	return retry, cond, nil
@@ -606,6 +628,37 @@ func (rn *runner) runHistory(idx int, c retryCfg, s sut, prefix string, evs []ev
 			}
 		}
 		cfgOf := c
+		if c.TwoFlows {
+			fs, _ := s.(*flowSUT)
+			if fs != nil && c.matches(ev.Status) && len(fs.lastConds) != 2 {
+				v.Violate("C17/flows/two-flows/a-flow-did-not-run", fmt.Sprintf("event #%d: status %d passes both flows' filters, Retry processors that reported: %v", k, ev.Status, fs.lastConds),
+					replay{Case: idx, Seed: rn.args.Seed, Cfg: c, Events: evs[:k+1]})
+				return false
+			}
+			// the second flow's processor is judged by a machine of its own; the first flow's by the usual one below
+			m2 := models2[ev.Seq]
+			if m2 == nil {
+				m2 = newSeqModel()
+				models2[ev.Seq] = m2
+			}
+			if ev.Abandon && isNewCall {
+				m2.mayForget()
+			}
+			ev2 := *ev
+			ev2.Retry = fs != nil && fs.lastConds["retryflow2"] == "retry"
+			if kind, _ := m2.step(c, ev2, isNewCall); kind != "" {
+				if kind != "missing-retry/after-nonmatching-end" {
+					kind = "two-flows/" + kind
+				}
+				v.Violate("C17/flows/"+kind, fmt.Sprintf("event #%d (seq %d, status %d): the Retry processor of the second flow reported %q, which contradicts every admissible state of ITS sequence; attempts=%d", k, ev.Seq, ev.Status, fs.lastConds["retryflow2"], c.Attempts),
+					replay{Case: idx, Seed: rn.args.Seed, Cfg: c, Events: evs[:k+1]})
+				return false
+			}
+			if fs != nil {
+				ev.Retry = fs.lastConds["retryflow"] == "retry"
+			}
+			v.Count("responses_handled_by_two_flows", 1)
+		}
 		if c.Range2 != nil {
 			// two Retry processors in one flow: each keeps its own count per sequence. The response belongs to the
 			// processor whose filter it passes; for the other one it is a response outside its conditions.
@@ -692,7 +745,9 @@ func genCfg(r *sim.Rand, mode string) retryCfg {
 			c.CooldownS = r.Range(0, 5)
 			c.Mult = sim.Pick(r, []float64{0, 0.5, 1, 1.5, 2, 3})
 		}
-		if r.Chance(1, 4) {
+		if r.Chance(1, 8) {
+			c.TwoFlows = true
+		} else if r.Chance(1, 4) {
 			// a second Retry processor behind its own, disjoint status filter
 			switch c.Ranges[0] {
 			case [2]int{500, 599}, [2]int{500, 500}:
